@@ -1,6 +1,7 @@
 (* C09 model runner.  One case per line:
      <id> s<caseseed> n<N> <node>*N : <op>*
-   node = <m|b>,<subject|->,<succ.succ...|->        op = P<n> T<n>.<t> U<t> D<n> G A<0|1> S<id>.<known>.<valid>
+   node = <kind 0..5>,<subject|->,<succ.succ...|->  (kind: 0 blob 1 image 2 docker 3 index 4 dockerl 5 artifact)
+   op = P<n> T<n>.<t> U<t> D<n> G A<0|1> S<id>.<alg 0 sha256 1 sha512 2 sha384 3 other>.<valid>
    Output: <id> then, per op, <op>=<res>/B:..../I:..../P:..../S:....  (see harness/cmd/c09). *)
 let ints_of sep s = if s = "-" || s = "" then [] else List.map int_of_string (String.split_on_char sep s)
 let join sep l = String.concat sep l
@@ -30,7 +31,7 @@ let () =
       let ops = match rest with ":" :: o -> o | _ -> failwith "no ops" in
       let parsed = Array.of_list (List.map (fun s ->
         match String.split_on_char ',' s with
-        | [k; sub; sc] -> (k = "m", (if sub = "-" then None else Some (nat_of_int (int_of_string sub))), List.map nat_of_int (ints_of '.' sc))
+        | [k; sub; sc] -> (is_manifest_kind (nat_of_int (int_of_string k)), (if sub = "-" then None else Some (nat_of_int (int_of_string sub))), List.map nat_of_int (ints_of '.' sc))
         | _ -> failwith "node") nodes) in
       let get k = let i = int_of_nat k in if i < n then Some parsed.(i) else None in
       let succ k = match get k with Some (_, _, s) -> s | None -> [] in
@@ -49,7 +50,7 @@ let () =
             | 'D' -> ODelete (nat_of_int (int_of_string arg))
             | 'G' -> OGC
             | 'A' -> OAuto (arg = "1")
-            | 'S' -> (match ints_of '.' arg with [a; k; v] -> OStray { s_id = nat_of_int a; s_known = (k = 1); s_valid = (v = 1) } | _ -> failwith "S")
+            | 'S' -> (match ints_of '.' arg with [a; k; v] -> OStray { s_id = nat_of_int a; s_alg = nat_of_int k; s_valid = (v = 1) } | _ -> failwith "S")
             | _ -> failwith "op" in
           let (st', r) = step succ subject manifest cfg !st op in
           st := st';
